@@ -325,6 +325,86 @@ def run(ctx):
         s = xvio.scale_for(allv)
         line = 'reclass %s %s %s' % (xvio.lst(bins, s), xvio.lst(nv, 1), xvio.grid(data, s))
         pending.append((line, 1, out, case, 'reclassify'))
+    # bin bounds that are not float32 numbers, on float32 and float64 rasters, with cells at / next to the float32
+    # roundings of each bound (comparisons must be made against the bound as given, not a narrowed copy)
+    for i in range(12 if ctx.quick() else 120):
+        rng = ctx.rng
+        nb = rng.randint(1, 6)
+        start = rng.randint(-3, 3)
+        bins = [round((start + j + 1) * rng.choice([0.1, 0.3, 0.7]), 10) for j in range(nb)]
+        bins = sorted(set(bins))
+        nv = [float(rng.randint(1, 50)) for _ in bins]
+        dtype = ['float32', 'float64'][i % 2]
+        cells = []
+        for b in bins:
+            f = float(np.float32(b))
+            cells += [f, float(np.nextafter(np.float32(f), np.float32(np.inf))), float(np.nextafter(np.float32(f), np.float32(-np.inf)))]
+            if dtype == 'float64':
+                cells += [b, float(np.nextafter(b, np.inf)), float(np.nextafter(b, -np.inf))]
+        case = dict(fn='reclassify', bins=bins, new_values=nv, data=[cells], dtype=dtype)
+        ctx.case(case)
+        ctx.count('reclassify/%s/non-f32-bounds' % dtype)
+        a = np.array(case['data'], dtype='float64').astype(dtype)
+        try:
+            out = to_floats(classify.reclassify(xr.DataArray(a, dims=['y', 'x']), bins=bins, new_values=nv).data)
+        except Exception as e:
+            ctx.violation('oracle', 'reclassify raised %s: %s' % (type(e).__name__, e), case)
+            continue
+        data = to_floats(a)
+        check_reclass_oracle(ctx, data, bins, nv, out, case, 'reclassify')
+        s_ = xvio.scale_for([v for r in data for v in r] + bins)
+        pending.append(('reclass %s %s %s' % (xvio.lst(bins, s_), xvio.lst(nv, 1), xvio.grid(data, s_)), 1, out, case, 'reclassify'))
+    # ---- the same classifiers on Dask-backed rasters (map_blocks per chunk; bins/cuts computed globally) --------
+    import dask.array as da
+    for i in range(24 if ctx.quick() else 300):
+        rng = ctx.rng
+        fn = ['reclassify', 'binary', 'quantile', 'equal_interval'][i % 4]
+        dtype = DT[i % len(DT)]
+        a = rand_raster(rng, dtype, rng.randint(2, 6), rng.randint(2, 6), ['small', 'wide', 'frac'][i % 3])
+        chunks = (rng.choice([1, 2, 3]), rng.choice([1, 2, 3]))
+        case = dict(fn=fn, data=to_floats(a), dtype=dtype, dask_chunks=list(chunks))
+        agg_np = xr.DataArray(a.copy(), dims=['y', 'x'])
+        agg_da = xr.DataArray(da.from_array(a.copy(), chunks=chunks), dims=['y', 'x'])
+        import contextlib
+        import io
+        try:
+            with contextlib.redirect_stdout(io.StringIO()), contextlib.redirect_stderr(io.StringIO()):
+                if fn == 'reclassify':
+                    bins = sorted(set(float(rng.randint(-4, 8)) for _ in range(rng.randint(1, 5))))
+                    nv = [float(rng.randint(0, 30)) for _ in bins]
+                    case.update(bins=bins, new_values=nv)
+                    r_np = classify.reclassify(agg_np, bins=bins, new_values=nv)
+                    r_da = classify.reclassify(agg_da, bins=bins, new_values=nv)
+                elif fn == 'binary':
+                    vals = [float(rng.randint(0, 6)) for _ in range(rng.randint(1, 4))]
+                    case.update(values=vals)
+                    r_np = classify.binary(agg_np, vals)
+                    r_da = classify.binary(agg_da, vals)
+                else:
+                    fin = a[np.isfinite(a)] if a.dtype.kind == 'f' else a.ravel()
+                    if fin.size == 0 or float(fin.min()) == float(fin.max()):
+                        continue
+                    k = rng.randint(2, 6)
+                    case.update(k=k)
+                    r_np = getattr(classify, fn)(agg_np, k=k)
+                    r_da = getattr(classify, fn)(agg_da, k=k)
+            lazy = hasattr(r_da.data, 'compute')
+            o_np, o_da = to_floats(r_np.data), to_floats(r_da.data.compute() if lazy else r_da.data)
+        except Exception as e:
+            ctx.violation('oracle', '%s on a Dask-backed raster raised %s: %s' % (fn, type(e).__name__, str(e)[:200]), case)
+            continue
+        ctx.case(case)
+        ctx.count('dask/%s/%s' % (fn, dtype))
+        if fn == 'quantile':
+            continue        # Dask percentiles are documented approximate: only exercised, not compared
+        same = all((x == y) or (math.isnan(x) and math.isnan(y)) for rx, ry in zip(o_np, o_da) for x, y in zip(rx, ry))
+        if not same or not lazy:
+            ctx.violation('oracle', '%s: Dask-backed result %s differs from the NumPy-backed result %s%s' % (
+                fn, o_da, o_np, '' if lazy else ' (and is not lazy)'), dict(case, numpy=o_np, dask=o_da))
+        if fn in ('reclassify', 'binary'):
+            # the Dask result itself must satisfy the property (first bin >= value / listed values)
+            if fn == 'reclassify':
+                check_reclass_oracle(ctx, to_floats(a), case['bins'], case['new_values'], o_da, case, 'reclassify(dask)')
     ctx.exhaustive = False
     # ---- binary ----------------------------------------------------------
     nbin = 40 if ctx.quick() else 400
